@@ -95,6 +95,25 @@ Fixpoint delta_dec_from (m acc : Z) (l : list Z) : list Z :=
 Definition delta_dec_row (m : Z) (l : list Z) : list Z :=
   match l with [] => [] | x :: l' => x :: delta_dec_from m x l' end.
 
+(* the same two row functions as the in-place loops of the code (one row, offset 0):
+   _delta_encode:  for x in reversed(range(w - 1)): arr[x+1] = (arr[x+1] - arr[x]) % mod
+   _delta_decode:  for x in range(w - 1):           arr[x+1] = (arr[x+1] + arr[x]) % mod *)
+Definition upd (l : list Z) (i : nat) (v : Z) : list Z := firstn i l ++ v :: skipn (S i) l.
+
+Fixpoint enc_loop_desc (m : Z) (x : nat) (arr : list Z) : list Z :=      (* x-1, x-2, ..., 0 *)
+  match x with
+  | O => arr
+  | S x' => enc_loop_desc m x' (upd arr (S x') ((nth (S x') arr 0 - nth x' arr 0) mod m))
+  end.
+Definition enc_inplace (m : Z) (row : list Z) : list Z := enc_loop_desc m (length row - 1) row.
+
+Fixpoint dec_loop_asc (m : Z) (k x : nat) (arr : list Z) : list Z :=     (* k iterations from x upwards *)
+  match k with
+  | O => arr
+  | S k' => dec_loop_asc m k' (S x) (upd arr (S x) ((nth (S x) arr 0 + nth x arr 0) mod m))
+  end.
+Definition dec_inplace (m : Z) (row : list Z) : list Z := dec_loop_asc m (length row - 1) 0 row.
+
 (* apply f to each of the first h rows of w items; what follows them is left as it is *)
 Fixpoint map_rows (f : list Z -> list Z) (h w : nat) (l : list Z) : list Z :=
   match h with
